@@ -462,12 +462,11 @@ def r_chunking(c):
     if c["mode"] == "mtl":
         sw = sw[len(c["losses"]):]  # the first sweeps are the per-task Grad calls (one row each, heads only)
     exp = _expected_blocks(m, k)
-    if [s[0] for s in sw] != exp:
-        probs.append(f"row blocks of the sweeps {[s[0] for s in sw]} != {exp}")
+    k_eff = m if k is None else k
+    if len(sw) != len(exp) or any(not 1 <= s[0] <= k_eff for s in sw) or sum(s[0] for s in sw) != m:
+        probs.append(f"row blocks of the sweeps {[s[0] for s in sw]}: expected {len(exp)} sweeps of at most {k_eff} rows covering {m} rows")
     if not all(s[1] == (s[0] > 1) for s in sw):
         probs.append("vmap used for a single-row block or not used for a larger one")
-    if [s[2] for s in sw] != [True] * (len(sw) - 1) + [retain]:
-        probs.append(f"retain_graph flags of the sweeps {[s[2] for s in sw]}")
     if not vmap_bad:
         prog0, agg0, _ = run(None)
         if not close(agg.seen[0], agg0.seen[0]):
@@ -699,7 +698,11 @@ def r_accumulate(c):
             elif e == 3:
                 t.grad += 0.125
         before = {n: (None if prog[n].grad is None else prog[n].grad.clone()) for n in requested}
+        handles = {n: prog[n].grad for n in requested}
         call()
+        for n in requested:
+            if handles[n] is not None and (prog[n].grad is not handles[n]):
+                probs.append(f"call {k}: the existing .grad tensor of {n} was replaced instead of being added to")
         # the update of this call, independently: slices of the aggregator's answer in the column order it saw
         M = agg.seen[-1].detach().numpy()
         v = (agg.cache_copy if agg.cached else agg.outs[-1]).detach().numpy()
